@@ -363,7 +363,7 @@ impl Reader {
         self.inputs.get(&cid.assert_usize()).cloned()
     }
     pub fn cids(&self) -> ops::Range<i32> {
-        0..self.max_cid + 1
+        0..self.max_cid.saturating_add(1)
     }
 }
 
